@@ -708,6 +708,7 @@ func (o *Oracle) onSend(inc *Inc, m *Msg) {
 			v.Facts["both_won_an_election"] = fmt.Sprint(o.wonElection(l.node, m.Term) && o.wonElection(m.Src, m.Term))
 		}
 	case "RV", "PV":
+		o.onVoteRequestSent(inc, m)
 		if m.Kind == "RV" {
 			w.stats.probe("request_vote_sent")
 		}
